@@ -401,11 +401,120 @@ static Case gen_rel_str() {
   return Case("rel_str").N(rel).S(a).S(b);
 }
 
+
+// ---------------------------------------------------------------- failures stay intact while later ones are raised
+//
+// A test runner may collect failures and report them later: the file / line / message an expectation_failed
+// carries must still be those of ITS call site after other expectations have failed. case: n = [kind...], each kind
+// one failing helper call (0..5 relation macros on ints, 6 expect, 7 expect_msg with one of three literals, 8
+// expect_raises on a function that returns); every exception is kept (by copy) and all kept ones are re-verified
+// after each new failure and once more at the end.
+struct Kept {
+  phosg::expectation_failed e;
+  std::string msg; // expected message literal ("" = do not read msg: built at run time)
+  uint64_t line;
+  std::string what_part;
+};
+
+static void run_retain(const Case& c) {
+  std::vector<Kept> kept;
+  auto verify_all = [&](size_t after) {
+    for (size_t i = 0; i < kept.size(); i++) {
+      const Kept& k = kept[i];
+      VCHECK(k.e.file != nullptr && std::string(k.e.file) == __FILE__, "retained-file", "failure #", i, " lost its file after failure #", after);
+      VCHECK(k.e.line == k.line, "retained-line", "failure #", i, " has line ", k.e.line, " expected ", k.line, " after failure #", after);
+      std::string w = k.e.what();
+      VCHECK(w.find(cat(__FILE__, ":", k.line)) != std::string::npos, "retained-what", "what() of failure #", i, " is '", w, "' after failure #", after);
+      if (!k.what_part.empty()) VCHECK(w.find(k.what_part) != std::string::npos, "retained-what-message", "what() of failure #", i, " is '", w, "', lacks '", k.what_part, "'");
+      if (!k.msg.empty()) {
+        VCHECK(k.e.msg != nullptr && k.msg == k.e.msg, "retained-msg", "msg of failure #", i, " reads '", (k.e.msg ? std::string(k.e.msg).substr(0, 80) : std::string("(null)")), "' expected '", k.msg, "' after failure #", after);
+      }
+    }
+  };
+  for (size_t idx = 0; idx < c.n.size(); idx++) {
+    uint64_t kind = c.u(idx) % 11;
+    uint64_t line = 0;
+    std::string msg, what_part;
+    int64_t a = 1, b = 2; // operands are always named a and b: the macros stringify them into the message
+    if (kind == 1) b = 1;
+    if (kind == 4 || kind == 5) {
+      a = 2;
+      b = 1;
+    }
+    bool caught = false;
+    try {
+      switch (kind) {
+        case 0: SITE(expect_eq(a, b)); msg = kRelMsg[0]; break;
+        case 1: SITE(expect_ne(a, b)); msg = kRelMsg[1]; break;
+        case 2: SITE(expect_gt(a, b)); msg = kRelMsg[2]; break;
+        case 3: SITE(expect_ge(a, b)); msg = kRelMsg[3]; break;
+        case 4: SITE(expect_lt(a, b)); msg = kRelMsg[4]; break;
+        case 5: SITE(expect_le(a, b)); msg = kRelMsg[5]; break;
+        case 6: SITE(expect(a == b)); msg = "!(a == b)"; break;
+        case 7: SITE(expect_msg(a == b, "first retained literal")); msg = "first retained literal"; break;
+        case 8: SITE(expect_msg(a == b, "second, rather longer retained literal 0123456789 0123456789")); msg = "second, rather longer retained literal 0123456789 0123456789"; break;
+        case 9: SITE(expect_msg(a == b, "3rd")); msg = "3rd"; break;
+        default: {
+          auto returns = []() {};
+          SITE(expect_raises(std::runtime_error, returns));
+          msg = ""; // built at run time by the helper: only what() is inspected
+          break;
+        }
+      }
+    } catch (const phosg::expectation_failed& e) {
+      caught = true;
+      // the messages recorded above are assigned after the throwing statement; set them here
+      switch (kind) {
+        case 0: case 1: case 2: case 3: case 4: case 5: msg = kRelMsg[kind]; break;
+        case 6: msg = "!(a == b)"; break;
+        case 7: msg = "first retained literal"; break;
+        case 8: msg = "second, rather longer retained literal 0123456789 0123456789"; break;
+        case 9: msg = "3rd"; break;
+        default: msg = ""; break;
+      }
+      what_part = msg;
+      kept.push_back(Kept{e, msg, line, what_part});
+    }
+    VCHECK(caught, "retained-must-fail", "helper kind ", kind, " did not throw expectation_failed");
+    verify_all(idx);
+  }
+  verify_all(c.n.size());
+  if (c.n.size() >= 2) ctx().nontrivial_case();
+}
+
+static Case gen_retain() {
+  Case c("retain");
+  uint64_t len = 1 + vg::below(8);
+  for (uint64_t i = 0; i < len; i++) c.N(vg::below(11));
+  return c;
+}
+
+static void enum_retain(Enum& e) {
+  // every sequence of 1..3 failing helper calls over the 11 kinds
+  uint64_t idx = 0;
+  for (uint64_t len = 1; len <= 3 && !e.stop; len++) {
+    uint64_t total = 1;
+    for (uint64_t k = 0; k < len; k++) total *= 11;
+    for (uint64_t code = 0; code < total && !e.stop; code++, idx++) {
+      if (!e.mine(idx)) continue;
+      Case c("retain");
+      uint64_t t = code;
+      for (uint64_t k = 0; k < len; k++) {
+        c.N(t % 11);
+        t /= 11;
+      }
+      e.exec(c);
+    }
+  }
+  e.complete("every sequence of 1..3 failing helper calls over 11 helper kinds, all exceptions retained and re-verified after each later failure");
+}
+
 int main(int argc, char** argv) {
   std::vector<SubCheck> checks;
   checks.push_back({"raises", run_raises, nullptr, 0, 0, 100, enum_raises});
   checks.push_back({"rel_int", run_rel_int, gen_rel_int, 100000, 800000, 100, enum_rel_int});
   checks.push_back({"rel_dbl", run_rel_dbl, gen_rel_dbl, 100000, 800000, 100, enum_rel_dbl});
   checks.push_back({"rel_str", run_rel_str, gen_rel_str, 100000, 800000, 100, enum_rel_str});
+  checks.push_back({"retain", run_retain, gen_retain, 20000, 200000, 100, enum_retain});
   return main_(argc, argv, checks);
 }
